@@ -51,6 +51,8 @@ def build(scen, pad):
     rich = RichChkIo().decode_chk(ChkIo().decode_chk_binary_data(base))
     nloc, nsw, ncu = rnd.randrange(2, 6), 5 + scen % 3, rnd.randrange(1, 4)
     locs = [RichLocation(32 * (i + 1 + scen), 64 + i, 512 + 32 * i, 640 + i, RichString("c14 loc %d-%d" % (scen, i))) for i in range(nloc)]
+    # several new locations may share a label (per-player spawn areas) while being different rectangles
+    locs += [RichLocation(1000 + 64 * i, 2000 + i, 1100 + 64 * i, 2100 + i, RichString("c14 spawn %d" % scen)) for i in range(4)]
     sws = [RichSwitch(RichString("c14 switch %d-%d" % (scen, i))) for i in range(nsw)] + [RichSwitch() for _ in range(scen % 2)]
     cus = [RichCuwpSlot(10 + i, 20 + i, 30 + i, _units_in_hangar=i, _invincible=bool(i % 2)) for i in range(ncu)]
     units = list(UnitId)
@@ -66,6 +68,8 @@ def build(scen, pad):
         if t == 0:
             # every authored object is referenced at least once
             acts += [SetSwitchAction(_switch=s, _switch_action=SwitchAction.SET) for s in sws]
+            # existing switches by number, switch 0 included (numbers are 0-based)
+            acts += [SetSwitchAction(_switch=RichSwitch(_index=k), _switch_action=SwitchAction.CLEAR) for k in (0, 1, 200)]
             acts += [MinimapPingAction(_location=l) for l in locs]
             acts += [CreateUnitWithPropertiesAction(_group=players[1], _amount=1, _unit=units[9], _location=locs[0], _properties=c) for c in cus]
         triggers.append(RichTrigger(_conditions=conds, _actions=acts, _players={players[0], players[t % 8]}))
